@@ -40,6 +40,7 @@ from mashumaro.dialect import Dialect
 
 __all__ = [
     "get_type_origin",
+    "get_underlying_class",
     "get_args",
     "type_name",
     "is_special_typing_primitive",
@@ -98,6 +99,20 @@ def get_type_origin(typ: Type) -> Type:
         return typ.__origin__
     except AttributeError:
         return typ
+
+
+def get_underlying_class(typ: Type) -> Type:
+    # look through NewType, Annotated, generic and PEP 695 aliases
+    # to the class that instances of the type have at runtime
+    while True:
+        if is_new_type(typ):
+            typ = typ.__supertype__
+        elif is_type_alias_type(typ):
+            typ = typ.__value__  # type: ignore[attr-defined]
+        elif get_type_origin(typ) is not typ:
+            typ = get_type_origin(typ)
+        else:
+            return typ
 
 
 def is_builtin_type(typ: Type) -> bool:
